@@ -2,9 +2,11 @@ package chain
 
 import (
 	"encoding/hex"
+	"encoding/json"
 	"fmt"
 	"math/big"
 	"math/rand"
+	"os"
 	"sort"
 
 	"github.com/dominant-strategies/go-quai/common"
@@ -18,25 +20,25 @@ import (
 // Runner drives a MiniNet through mine / fork / sethead steps with random real content and records,
 // after every step, the projection of the zone database onto the abstract state of spec/ZoneChain.tla.
 type Runner struct {
-	E      *Env
-	R      *rand.Rand
-	ids    map[string]int // entry (utxo / lockup record) -> abstract id
-	names  []string
-	Blocks []BlockInfo // abstract block id -> info (0 = genesis)
-	byHash map[common.Hash]int
-	Events []map[string]interface{}
-	Prev   *State
-	quaiNonce map[common.Address]uint64
-	Verbose bool
-	Verbose2 bool
-	Problems []Problem // native (non-TLC) property violations found while running
-	Mined    map[int]*mininet.Mined
-	Followers []*mininet.Net
-	FollowerNames []string
-	ReexecProcs []int // GOMAXPROCS values for re-execution before insertion (nil = off)
-	Reexecs  int
+	E              *Env
+	R              *rand.Rand
+	ids            map[string]int // entry (utxo / lockup record) -> abstract id
+	names          []string
+	Blocks         []BlockInfo // abstract block id -> info (0 = genesis)
+	byHash         map[common.Hash]int
+	Events         []map[string]interface{}
+	Prev           *State
+	quaiNonce      map[common.Address]uint64
+	Verbose        bool
+	Verbose2       bool
+	Problems       []Problem // native (non-TLC) property violations found while running
+	Mined          map[int]*mininet.Mined
+	Followers      []*mininet.Net
+	FollowerNames  []string
+	ReexecProcs    []int // GOMAXPROCS values for re-execution before insertion (nil = off)
+	Reexecs        int
 	FollowerChecks int
-	FreshReplays int
+	FreshReplays   int
 }
 
 type Problem struct {
@@ -501,7 +503,6 @@ func (r *Runner) Blocks2Head() int { return r.head() }
 
 func (r *Runner) NumEntries() int { return len(r.names) }
 
-
 // importBlock feeds a block mined elsewhere to another node, as gossip would.
 func importBlock(f *mininet.Net, m *mininet.Mined) error {
 	cp := &mininet.Mined{Order: m.Order, Hash: m.Hash}
@@ -586,7 +587,6 @@ func (r *Runner) dbgAddrs(tag string, blk *types.WorkObject) {
 	}
 }
 
-
 // WarmUp brings the chain to a state with spendable Qi outputs for every key: genesis allocations are
 // credited in block 1, a prime block activates the exchange controller, Quai->Qi conversions are
 // confirmed by the next prime block, executed in the following zone block and unlock a few blocks later.
@@ -624,4 +624,41 @@ func (r *Runner) WarmUp() (int, error) {
 		return head, err
 	}
 	return head, fmt.Errorf("warm-up: not every key has spendable Qi outputs at height %d", r.E.Height())
+}
+
+// LogTamper records that an adversarial copy of block `of` (re-sealed, hash h) was offered on the current head
+// and what the node did with it; the copy gets the next abstract block id.
+func (r *Runner) LogTamper(of int, h common.Hash, mutation string, accepted, imageUnchanged bool) error {
+	ob := r.Blocks[of]
+	id := len(r.Blocks)
+	r.Blocks = append(r.Blocks, BlockInfo{Hash: h, Parent: ob.Parent, Height: ob.Height, Order: ob.Order, PHash: ob.PHash, RHash: ob.RHash})
+	r.byHash[h] = id
+	ev, st, err := r.observe()
+	if err != nil {
+		return err
+	}
+	r.Prev = st
+	ev["op"] = "tamper"
+	ev["b"] = id
+	ev["of"] = of
+	ev["mutation"] = mutation
+	ev["accepted"] = accepted
+	ev["image_unchanged"] = imageUnchanged
+	r.Events = append(r.Events, ev)
+	return nil
+}
+
+func (r *Runner) WriteEvents(path string) error {
+	f, err := os.Create(path)
+	if err != nil {
+		return err
+	}
+	defer f.Close()
+	enc := json.NewEncoder(f)
+	for _, ev := range r.Events {
+		if err := enc.Encode(ev); err != nil {
+			return err
+		}
+	}
+	return nil
 }
